@@ -22,6 +22,8 @@ VARIANTS = {
     "semi": pygen.Layout(semi=True),
     "joins3_crlf": pygen.Layout(join=3, eol="\r\n", brk=True, comment="#"),
 }
+# no space between tokens wherever the reference tokenizer still sees the same tokens ("a+b", "f(x)", "from...import x")
+TIGHT = pygen.Layout(tight=True)
 
 
 def key_of(case):
@@ -66,6 +68,13 @@ def check(ctx, cases, pcases, label):
             if text != text0:
                 reqs.append({"op": "parse", "src": text, "mode": c["mode"]})
                 meta.append((idx, vn, e0, toks))
+        tt, _, _ = pygen.realize(c, TIGHT)
+        if tt != text0:
+            if pygen.token_strings(tt) == pygen.token_strings(text0):
+                reqs.append({"op": "parse", "src": tt, "mode": c["mode"]})
+                meta.append((idx, "tight", e0, toks))
+            else:
+                ctx.extra["tight_not_token_preserving"] = ctx.extra.get("tight_not_token_preserving", 0) + 1
         pc = pmap.get(key_of(c))
         if pc is not None:
             tp, _, _ = pygen.realize(pc)
